@@ -22,6 +22,7 @@ from .. import q
 from .. import x_ws as X
 from ..cfg import must_facts, explore, canon_fact
 from ..model import AnalysisError
+from .. import x_wsnorm as NORM
 from ..mutate import mutate, remove_stmts, replace_expr, replace_stmt, parse_stmt, parse_expr
 
 TECHNIQUE = "exhaustive header-byte/opcode enumeration with constant propagation over the CFG + encoder/decoder table agreement"
@@ -749,6 +750,7 @@ attr_t = ast.Attribute
 
 
 def run(ck):
+    ck.repo = NORM.normalize(ck.repo, W, NORM.KEEP_WS)  # aliases, temporaries, 1-tuple unpacks, single-use private helpers (vt/x_wsnorm.py)
     ck.rule("C14.ctl-no-msg-state", "_receive_frame: for every control opcode (and every FIN/RSV combination) no write of _frame_compressed/_fragmented_message_buffer/_fragmented_message_opcode is reachable; _frame_compressed is not rewritten by continuation frames")
     ck.rule("C14.ctl-no-inflate", "_handle_message: for every control opcode the payload is never inflated, whatever the per-message compressed flag holds")
     ck.rule("C14.rsv1-flag", "_receive_frame: with a decompressor negotiated, _frame_compressed equals the RSV1 bit of the first frame of the message whenever that frame is consumed")
